@@ -1202,7 +1202,7 @@ func (w *c20World) judge() {
 					}
 					punches = append(punches, wh)
 				case stunPrefix && view[0]&0xc0 != 0:
-					x.Violate("stun-topbits-swallowed", "pkt#%d (%s, %d bytes from %v) was withheld from the reader as a STUN response, but its two most significant bits are %02b: RFC 5389 §6 requires 00 of every STUN message (first byte %#02x is in the QUIC range)", arr.idx, arr.kind, len(view), arr.src, view[0]>>6, view[0])
+					x.Violate("stun-topbits-swallowed", "pkt#%d (%s, %d bytes from %v) was withheld from the reader as a STUN response, but its two most significant bits are %02b: RFC 5389 §6 requires 00 of every STUN message (first byte %#02x is outside the STUN range 0x00-0x3f; 0x40-0x7f is a QUIC short header)", arr.idx, arr.kind, len(view), arr.src, view[0]>>6, view[0])
 					return
 				case stunPrefix:
 					x.Violate("stun-trailing-swallowed", "pkt#%d (%s, %d bytes from %v) was withheld from the reader as a STUN response, but its STUN length field covers only %d of its %d bytes", arr.idx, arr.kind, len(view), arr.src, 20+int(binary.BigEndian.Uint16(view[2:4])), len(view))
